@@ -93,7 +93,13 @@ def run_harness(job):
             try:
                 I.call(fn, [I.ghost.vc], {}, None)
             except RaiseSig as r:
-                ctx.check(False, f"no-uncaught-exception[{r.exc.cls.name}]", r.where)
+                if str(r.where).startswith("contracts."):
+                    # raised by harness code itself: the harness no longer fits the code it
+                    # looks into -- undecided (the native twin decides what it can), never a
+                    # refutation
+                    ctx.undecided(f"harness-error[{r.exc.cls.name}]", r.where, f"the harness itself raised {r.exc.cls.name} at {r.where}: it no longer fits the code it inspects")
+                else:
+                    ctx.check(False, f"no-uncaught-exception[{r.exc.cls.name}]", r.where)
             except CutSig:
                 pass
 
@@ -397,6 +403,18 @@ def report(prop, tier, seed, t0, results, meta, args):
         rec["native"] = nat
         with open(rp, "w") as f:
             json.dump(rec, f, indent=1, default=repr)
+        harness_broken = None
+        for v_ in (nat, locals().get("fz") or {}):
+            if v_.get("verdict") == "invalid" and "harness itself raised" in str(v_.get("reason", "")):
+                harness_broken = v_.get("reason")
+        if harness_broken is not None and nat.get("verdict") != "confirmed":
+            # on the real code the harness cannot even be evaluated (it reads or writes
+            # something the code no longer has): its symbolic refutation rests on a view of
+            # the code that is out of date -- a checker error, not evidence about the property
+            msg = f"{short}: {harness_broken}; obligation {c['label']} could not be judged"
+            if msg not in errors:
+                errors.append(msg)
+            continue
         kf = None
         for k in known:
             if (k.get("harness") == fname and c["label"].startswith(k.get("label", "\0"))) or (k.get("region") and k["region"] in c["label"]):
